@@ -322,6 +322,11 @@ class GradOracle(Observer):
                     continue
                 pre = rec["pre_grads"].get(k)
                 same = (g is None and pre is None) or (g is not None and pre is not None and np.asarray(g).tobytes() == pre[1] and np.asarray(g).shape == pre[3])
+                if not same and g is None and i.stale:
+                    # a view left over from a cleared family: its gradient is the view of its old
+                    # base's gradient and reads None once that gradient is replaced (C07)
+                    w.probe("grad.stale_view_grad_gone")
+                    continue
                 if not same:
                     w.violation(
                         self.prop,
@@ -786,3 +791,29 @@ class NoTraceOracle(Observer):
                 return
         w.probe("c13.failed_statement_checked")
         w.probe("c13.failed." + kind)
+
+
+# ======================================================================================
+# C10 - constant semantics
+# ======================================================================================
+class ConstOracle(Observer):
+    def after(self, w, ev, out):
+        k = ev["k"]
+        if k in ("leaf", "wrap", "op") and out.status == "nofail" and w.tracking:
+            w.violation("C10", "C10.int_nonconstant_accepted", f"step {w.nstep}: a non-float tensor with constant=False was accepted while tracking", tag=f"C10.int_nonconstant_accepted/{k}")
+            return
+        if out.status != "ok" or k not in ("leaf", "wrap", "op", "inplace", "terminal", "setshape"):
+            return
+        evt = k + ":" + str(ev.get("form") or ev.get("op") or "")
+        for h, t in w.T.items():
+            i = w.info[h]
+            if t.constant is not i.const and not (t.constant == i.const and isinstance(t.constant, (bool, np.bool_))):
+                role = "view" if i.ids is not None else "owner"
+                if w.violation(
+                    "C10",
+                    "C10.flag",
+                    f"step {w.nstep} ({evt}): handle {h} ({role}) has constant={t.constant!r}; the rules give {i.const}",
+                    tag=f"C10.flag/{evt}/{role}",
+                ):
+                    return
+        w.probe("c10.flags_checked")
